@@ -9,7 +9,7 @@ import random
 import vlib
 
 BASE = dict(LeafCap=3, IntCap=3, FixSplitTomb="TRUE", FixDeleteLSN="TRUE", FixReplayLSN="TRUE", FixReplayRoot="TRUE", FixReplayKey="TRUE", FixStmtAtomic="TRUE",
-            Tables='{"t1", "t2"}', Vals="{1, 2}", BadMode='"none"', WalSteps="FALSE", FlushSteps="FALSE",
+            Tables='{"t1", "t2"}', Vals="{1, 2}", BadMode='"none"', WalSteps="FALSE", WalParts="{0}", FlushSteps="FALSE",
             CrashAt="{}", NoCrashIn="{}", Wheres=None, DmlTables=None, Ops='{"create", "insert", "update", "delete"}', MaxStmts=4, MaxRows=2, MaxFlush=1, MaxCrash=0, MaxEvict=0, EmitOn="TRUE", EmitSel='"all"', EmitMod=1, Script="<- ScriptNone", ScriptRows="<- RowsNone", ScriptSeqs="<- SeqsNone")
 INVS = "ScanEqAbs CatalogOK TreesOK IdsOK StartsUp NothingLost"
 
@@ -381,6 +381,7 @@ def random_runs(ctx, pool, cov, runs, judge_graphs=False):
         agg["events"] += st.get("events", 0)
         agg["recoveries"] += st.get("recoveries", 0)
         agg["crash_in_log"] += st.get("crash-in-log", 0)
+        agg["crash_inside_log_write"] = agg.get("crash_inside_log_write", 0) + st.get("crash-inside-log-write", 0)
         agg["crash_idle"] += st.get("crash-idle", 0)
         agg["flushes"] += st.get("flushes", 0)
         agg["max_rows_in_a_table"] = max(agg["max_rows_in_a_table"], st.get("maxrows", 0))
